@@ -26,6 +26,21 @@ def run(ctx):
         "kernel language excludes: clones/rear/raze, markers (C20), fiats in benter context, loggers/servers",
     ]
     ctx.coq_build("C07/Props.v")
+    # directed scenarios first (situations the random generator reaches rarely)
+    sc_cases, sc_meta = [], []
+    for nm, p in kernel.scenarios(0.125) + kernel.scenarios(0.1):
+        ob = kernel.run_impl(p, None, ctx.work, "sc_" + nm.replace("-", "_"), maxticks=ctx.n(24, 40))
+        if "error" in ob:
+            ctx.tie_broken("correspondence", "scenario %s: implementation raised %s" % (nm, ob["error"]),
+                           kernel.json_dumps(ob))
+            continue
+        ctx.case({"scenario": nm, "tick": p["tick"], "events": len(ob["trace"])}, nontrivial=True, kind="scenario")
+        sc_cases.append((kernel.coq_run_expr(p, None, ctx.n(24, 40)), kernel.coq_obs(ob)))
+        sc_meta.append((nm, p, ob))
+    for i in ctx.coq_cases(kernel.COQ_HEADER, "(obs_eqb FOps)", sc_cases, shard=8, name="scen"):
+        nm, p, ob = sc_meta[i]
+        ctx.tie_broken("correspondence", "scenario %s: model and implementation traces differ" % nm,
+                       kernel.json_dumps({"flo": kernel.render_flo(p), "impl": ob}))
     n = ctx.n(60, 600)
     kernel.correspond(ctx, n, features={}, ticks=(0.125, 0.1, 0.25, 0.05), crash="none",
                       maxticks=ctx.n(24, 40), label="full")
